@@ -2,6 +2,7 @@ package harness
 
 import (
 	"fmt"
+	"net"
 	"strconv"
 	"strings"
 	"sync/atomic"
@@ -19,6 +20,8 @@ type c16Req struct {
 	SleepA   int    `json:"sleep_a_ms"`
 	SleepB   int    `json:"sleep_b_ms"`
 	GapMs    int    `json:"gap_before_ms"`
+	Hijack   bool   `json:"hijack_before_timeout"`
+	NoResp   bool   `json:"hijack_no_response"`
 }
 
 type c16Plan struct {
@@ -38,12 +41,15 @@ func scenC16(e *Env) func() {
 		var rs []c16Req
 		n := e.Range(1, 4)
 		for i := 0; i < n; i++ {
-			r := c16Req{ID: fmt.Sprintf("%d-%d", ci, i), Kind: Pick(e, "wrapped", "wrapped", "wrapped", "explicit"), GapMs: Pick(e, 0, 0, 1, t, 3*t)}
+			r := c16Req{ID: fmt.Sprintf("%d-%d", ci, i), Kind: Pick(e, "wrapped", "wrapped", "wrapped", "explicit", "explicit-resp"), GapMs: Pick(e, 0, 0, 1, t, 3*t)}
 			r.SleepA = Pick(e, 0, t/2, t-1, t, t+1, 2*t, 5*t)
 			r.SleepB = Pick(e, 0, 1, t, 3*t)
 			if r.SleepA < 0 {
 				r.SleepA = 0
 			}
+			// a handler certain to time out asks for the connection first
+			r.Hijack = r.SleepA >= 5*t && e.Chance(40)
+			r.NoResp = e.Chance(50)
 			rs = append(rs, r)
 		}
 		p.Conns = append(p.Conns, rs)
@@ -69,7 +75,7 @@ func c16Run(e *Env, p *c16Plan) {
 	var running, peak int32
 	work := func(ctx *fasthttp.RequestCtx) {
 		id := string(ctx.QueryArgs().Peek("id"))
-		if string(ctx.QueryArgs().Peek("kind")) != "explicit" {
+		if string(ctx.QueryArgs().Peek("kind")) == "wrapped" {
 			// only handlers behind TimeoutHandler are bounded by Concurrency
 			n := atomic.AddInt32(&running, 1)
 			for {
@@ -83,6 +89,10 @@ func c16Run(e *Env, p *c16Plan) {
 		r := byID[id]
 		if r == nil {
 			return
+		}
+		if r.Hijack {
+			ctx.HijackSetNoResponse(r.NoResp)
+			ctx.Hijack(func(c net.Conn) { c.Write([]byte("HIJACKED-" + id)) })
 		}
 		time.Sleep(time.Duration(r.SleepA) * time.Millisecond)
 		ctx.SetStatusCode(298)
@@ -109,7 +119,8 @@ func c16Run(e *Env, p *c16Plan) {
 	s := &fasthttp.Server{Concurrency: p.Concurrency, IdleTimeout: 5 * time.Minute}
 	k := NewServerKit(e, s)
 	k.Handle = func(ctx *fasthttp.RequestCtx, inv *Inv) {
-		if string(ctx.QueryArgs().Peek("kind")) == "explicit" {
+		if kind := string(ctx.QueryArgs().Peek("kind")); kind != "wrapped" {
+			id := string(ctx.QueryArgs().Peek("id"))
 			// the documented pattern: a goroutine keeps using ctx, the handler
 			// declares the timeout before returning
 			done := make(chan struct{})
@@ -119,7 +130,19 @@ func c16Run(e *Env, p *c16Plan) {
 			case <-done:
 				tm.Stop()
 			case <-tm.C:
-				ctx.TimeoutErrorWithCode(msg, 408)
+				if kind == "explicit-resp" {
+					// the usual idiom: build a response, hand it over, recycle it
+					r := fasthttp.AcquireResponse()
+					r.SetStatusCode(408)
+					r.SetBodyString(msg)
+					r.Header.Set("X-Timeout-Resp", id)
+					ctx.TimeoutErrorWithResponse(r)
+					r.SetStatusCode(297)
+					r.SetBodyString("MUTATED-" + id)
+					fasthttp.ReleaseResponse(r)
+				} else {
+					ctx.TimeoutErrorWithCode(msg, 408)
+				}
 			}
 			return
 		}
@@ -149,6 +172,7 @@ func c16Run(e *Env, p *c16Plan) {
 				}
 				resp, _, err := sc.ReadResp("GET", 10*time.Minute)
 				if err != nil {
+					e.Violation("response-missing", "request %s (%s, hijack-before-timeout=%v) got no well-formed response: %v; all bytes the server sent on the connection: %q", r.ID, r.Kind, r.Hijack, err, clip(string(sc.C.Peer().Sent()), 200))
 					return
 				}
 				outs[ci] = append(outs[ci], out{r.ID, resp})
@@ -174,10 +198,14 @@ func c16Run(e *Env, p *c16Plan) {
 			e.Ob(1)
 			total := time.Duration(r.SleepA+r.SleepB) * time.Millisecond
 			wantCode := code
-			if r.Kind == "explicit" {
+			if r.Kind != "wrapped" {
 				wantCode = 408
 			}
 			isTimeout := resp.Status == wantCode && string(resp.Body) == msg
+			if r.Kind == "explicit-resp" && isTimeout && resp.Header.Get("X-Timeout-Resp") != o.id {
+				e.Violation("timeout-response-altered", "request %s: the response passed to TimeoutErrorWithResponse carried X-Timeout-Resp: %s, the one sent carries %q", o.id, o.id, resp.Header.Get("X-Timeout-Resp"))
+				return
+			}
 			isOwn := resp.Status == 299 && string(resp.Body) == "B-"+o.id && resp.Header.Get("X-Own-"+o.id) == "B" && resp.Header.Get("X-Late") == "B-"+o.id
 			is429 := resp.Status == 429 && r.Kind == "wrapped"
 			// anything set by a handler other than this request's own is a leak
